@@ -16,7 +16,7 @@ import (
 
 // Profile = named generator configuration used by the property checks.
 func Profile(name string, seed int64, tier string) HistOpts {
-	o := HistOpts{Seed: seed, Blocks: 36, TxPerBlk: 5, Malformed: 6, CustomGas: 25, Multisig: 8, AbsentPct: 2, ByzPct: 1, CheckTx: false}
+	o := HistOpts{Seed: seed, Blocks: 36, TxPerBlk: 5, Malformed: 6, CustomGas: 25, Multisig: 8, AbsentPct: 2, ByzPct: 1, CheckTx: true}
 	if tier == "thorough" {
 		o.Blocks = 120
 		o.TxPerBlk = 7
